@@ -82,9 +82,10 @@ MANIFEST_TEXT = ('Exhaustive enumeration of BAM files built by an independent SA
                  'single-record shapes (name length 1/2/254 x 0..3 CIGAR ops x l_seq 0..5 x qualities present/absent x '
                  'tags x refID -1), all sequences over {=,A,C,N} up to length 5 and all byte values of the packed '
                  'sequence, all CIGAR lists of <= 3 ops over the nine kinds with lengths 0,1,2,2**28-1, flag x mapq x '
-                 'position products, reference tables of 0..3 names, all ordered files of 2..3 (quick) / 2..4 (thorough) '
-                 'records over 6 record variants x EVERY chunk size from the largest record to total+2 x 13 write '
-                 'selections, the BGZF member boundary at every byte offset, and records with 16383/16384/65535 CIGAR ops '
+                 'position products, reference tables of 0..3 names, all ordered files of 2 records over 6 record variants, of 3 '
+                 'records over 4 of them plus a seed-rotated quarter of the rest (quick) / all ordered files of 2..4 records '
+                 'over 6 variants and of 5 records over 4 (thorough) x EVERY chunk size from the largest record to '
+                 'total+2 x up to 13 write selections, the BGZF member boundary at every byte offset, and records with 16383/16384/65535 CIGAR ops '
                  'or > 64 KiB. Each field of each record is compared with the encoder input (lazy and eager), intervals with '
                  'pos + reference-consuming lengths and strand from 0x10, chunked reads with the whole read, and written '
                  'files are decoded by an independent decoder and re-read by bionumpy.')
@@ -342,13 +343,10 @@ def fam_multi(tier, seed):
         out.append(F('multi2', [V[i] for i in t], chunks='all', writes=SELECTIONS))
     for t in itertools.product(idx, repeat=3):
         core = all(i in V_CORE for i in t)
+        if tier == 'quick' and not core and (sum(t) + seed) % 4 != 0:
+            continue       # extension slice rotated by the seed; thorough runs every triple
         out.append(F('multi3', [V[i] for i in t], chunks='all', writes=SELECTIONS if (core or tier == 'thorough') else ['whole', 'sel-sel']))
-    if tier == 'quick':
-        # extension slice rotated by the seed: a third of the 4-record files over the core variants
-        for j, t in enumerate(itertools.product(V_CORE, repeat=4)):
-            if (j + seed) % 3 == 0:
-                out.append(F('multi4', [V[i] for i in t], chunks='all', writes=['whole', 'sel-sel-mask']))
-    else:
+    if tier == 'thorough':
         for t in itertools.product(idx, repeat=4):
             out.append(F('multi4', [V[i] for i in t], chunks='all', writes=['whole', 'mask-alt', 'sel-sel-mask', 'fancy-rep']))
         for t in itertools.product(V_CORE, repeat=5):
@@ -409,7 +407,7 @@ FAMILIES = {'singles': fam_singles, 'seq': fam_seq, 'cigar': fam_cigar, 'scalars
 GROUPS = {'multi': ['multi'], 'singles': ['singles'], 'misc': ['seq', 'cigar', 'scalars', 'qual', 'tags', 'header'],
           'comp': ['comp'], 'big': ['big']}
 PARTS = {
-    'quick': {'multi': 24, 'singles': 4, 'misc': 5, 'comp': 2, 'big': 2},
+    'quick': {'multi': 16, 'singles': 4, 'misc': 5, 'comp': 2, 'big': 2},
     'thorough': {'multi': 48, 'singles': 2, 'misc': 3, 'comp': 2, 'big': 1},
 }
 
@@ -428,7 +426,7 @@ def bounds(tier, seed):
                   + (' (3-name tables: slice (index+seed)%3==0)' if tier == 'quick' else ''),
         'multi': ('all 36 ordered pairs, all 216 ordered triples and all 1296 ordered 4-record files over 6 record variants, all 1024 '
                   'ordered 5-record files over 4 variants' if tier == 'thorough' else
-                  'all 36 ordered pairs and all 216 ordered triples over 6 record variants, 4-record files over 4 core variants with (index+seed)%3==0') +
+                  'all 36 ordered pairs over 6 record variants, all 64 ordered triples over 4 core variants plus the other triples with (sum of variant indices+seed)%4==0') +
                  ' x EVERY chunk size largest record..total+2 x %d write selections; one 30-record file' % len(SELECTIONS),
         'comp': 'BGZF member boundary at every byte offset of a 3-record file (header included), two boundaries %s bytes apart at %s offset, '
                 'one byte per member, stored blocks, no EOF block, single-member gzip' %
@@ -551,7 +549,11 @@ def obs_fields(t, fields):
             out[f] = ('raises', exc_name(e), tb_string(e))
             continue
         try:
-            vals = observe.column(col)
+            shp = getattr(col, 'shape', None)
+            if isinstance(shp, tuple) and len(shp) == 2 and shp[0] == 0:
+                vals = []          # an n x 1 character column with n == 0 (engine.observe cannot reshape it)
+            else:
+                vals = observe.column(col)
         except observe.ObserverError:
             raise
         except observe.MalformedLibraryValue as e:
@@ -946,6 +948,8 @@ def clause_write(cx, sel):
     whole = whole_obs(cx)
     if whole is None:
         cx.res.extra['re-read not judged: source whole read raises'] += 1
+    elif any(whole[f][0] == 'ok' and len(whole[f][1]) != b.n for f in FIELDS):
+        cx.res.extra['re-read not judged: source whole read has a wrong row count (reported by decode:row-count)'] += 1
     else:
         judged_f = [f for f in FIELDS if whole[f][0] == 'ok']
         exp = {f: ('ok', [whole[f][1][i] for i in idx]) for f in judged_f}
